@@ -17,7 +17,9 @@ CONSTANTS
   IdxSlack,              \* indexed frame() may target 0 .. Len(frm)+IdxSlack-1
   UserParams,            \* sequence of [g, p] records: the SetParam alphabet (besides the two rates)
   LockNames,             \* group names lockGroup/unlockGroup are tried with
-  CallerIds              \* identities of caller-side frame objects (C08); {} switches them off
+  CallerIds,             \* identities of caller-side frame objects (C08); {} switches them off
+  Phased                 \* TRUE: declarations and rates only before any frame exists, frames only once points, channels and
+                         \* both rates are declared (keeps the frame-centred slices small); FALSE: free interleaving
 
 VARIABLES obj, callers, hist, lastOp, lastOut, lastSets,
           inScope        \* C05's per-frame clauses apply (FALSE once a column was added over an empty gap frame, DESIGN appendix A.10)
@@ -78,15 +80,21 @@ Store(frm, f, idx) ==
   ELSE IF idx < Len(frm) THEN [frm EXCEPT ![idx + 1] = f]
   ELSE [i \in 1..(idx + 1) |-> IF i <= Len(frm) THEN frm[i] ELSE IF i = idx + 1 THEN f ELSE EmptyFrame]
 
+\* the frame carries exactly the declared shape (names in declared order, declared sub-frame count and channels)
+Conforming(f) ==
+  /\ PointNames(f) = PLabels /\ Len(f.p) = PUsed
+  /\ Len(f.a) = DeclSubs
+  /\ \A s \in 1..Len(f.a) : Len(f.a[s]) = AUsed
 HasGap == \E i \in 1..Len(obj.frm) : ~Filled(obj.frm[i])
 Done(o, op, out, sets) ==
   /\ obj' = o /\ lastOp' = op /\ lastOut' = out /\ lastSets' = sets /\ hist' = Append(hist, op)
-  /\ inScope' = (inScope /\ ~(out = "ok" /\ op.op \in {"DeclPoint", "DeclAnalog", "AddPointCols", "AddAnalogCols"} /\ HasGap))
+  /\ inScope' = (inScope /\ ~(out = "ok" /\ op.op \in {"DeclPoint", "DeclAnalog", "AddPointCols", "AddAnalogCols"} /\ HasGap)
+                          /\ ~(out = "ok" /\ op.op = "AddFrame" /\ ~Conforming(IF "c" \in DOMAIN op THEN callers[op.c] ELSE op.frame)))
 
 AddFrameF(f, idx, op) ==
   LET out == FrameOutcome(f) IN
   IF out # "ok" THEN Done(obj, op, out, <<>>)
-  ELSE Done(UpdateParameters(obj, Store(obj.frm, f, idx), <<>>, <<>>), op, "ok", <<>>)
+  ELSE /\ Done(UpdateParameters(obj, Store(obj.frm, f, idx), <<>>, <<>>), op, "ok", <<>>)
 
 IdxRange == {-1} \cup 0..(NF + IdxSlack - 1)
 AddFrame(kind, tag, idx) ==
@@ -257,11 +265,13 @@ MutFrame(f, tag) ==
   IF Len(f.p) > 0 THEN [f EXCEPT !.p[1].v[1] = <<tag, 7, 7, 66>>]
   ELSE IF Len(f.a) > 0 /\ Len(f.a[1]) > 0 THEN [f EXCEPT !.a[1][1].v = <<tag, 7, 7, 66>>]
   ELSE f
+\* (IF, not \/: inside an action TLC explores both sides of a disjunction)
+HasValue(f) == IF Len(f.p) > 0 THEN TRUE ELSE IF Len(f.a) > 0 THEN Len(f.a[1]) > 0 ELSE FALSE
 MutOp(f, tag) ==
   IF Len(f.p) > 0 THEN [kind |-> "ptval", i |-> 0, v |-> <<tag, 7, 7, 66>>]
   ELSE [kind |-> "chval", s |-> 0, i |-> 0, v |-> <<tag, 7, 7, 66>>]
 CallerMutate(k, tag) ==
-  /\ Filled(callers[k]) /\ (Len(callers[k].p) > 0 \/ Len(callers[k].a[1]) > 0)
+  /\ HasValue(callers[k])
   /\ MutFrame(callers[k], tag) # callers[k]
   /\ callers' = [callers EXCEPT ![k] = MutFrame(@, tag)]
   /\ lastOp' = [op |-> "CallerMutate", c |-> k] @@ MutOp(callers[k], tag) /\ hist' = Append(hist, lastOp')
@@ -271,7 +281,7 @@ AddCallerFrame(k, idx) ==
   /\ AddFrameF(callers[k], idx, [op |-> "AddFrame", idx |-> idx, c |-> k]) /\ UNCHANGED callers
 \* editing one stored frame in place (data().frame(i).points_nonConst()...) touches that frame only
 EditStored(fi, tag) ==
-  /\ fi \in 1..NF /\ Filled(obj.frm[fi]) /\ (Len(obj.frm[fi].p) > 0 \/ Len(obj.frm[fi].a[1]) > 0)
+  /\ fi \in 1..NF /\ HasValue(obj.frm[fi])
   /\ MutFrame(obj.frm[fi], tag) # obj.frm[fi]
   /\ Done([obj EXCEPT !.frm[fi] = MutFrame(@, tag)], [op |-> "EditStored", f |-> fi - 1] @@ MutOp(obj.frm[fi], tag), "ok", <<>>)
   /\ UNCHANGED callers
@@ -282,17 +292,19 @@ Init ==
   /\ callers = [k \in CallerIds |-> EmptyFrame]
   /\ hist = <<>> /\ lastOp = [op |-> "New"] /\ lastOut = "ok" /\ lastSets = <<>> /\ inScope = TRUE
 
+PhaseDecl == ~Phased \/ (NF = 0 /\ \A k \in CallerIds : callers[k] = EmptyFrame)
+ShapeReady == ~Phased \/ (Len(PLabels) >= 1 /\ Len(ALabels) >= 1 /\ ~FIsZero(Val1(G, sPOINT, sRATE)) /\ ~FIsZero(Val1(G, sANALOG, sRATE)))
 Next ==
-  \/ \E r \in PRates : SetPointRate(r)
-  \/ \E r \in ARates : SetAnalogRate(r)
-  \/ \E n \in PNames : DeclPoint(n)
-  \/ \E n \in ANames : DeclAnalog(n)
-  \/ \E k \in FrameKinds, t \in Tags, i \in IdxRange : AddFrame(k, t, i)
+  \/ \E r \in PRates : PhaseDecl /\ SetPointRate(r)
+  \/ \E r \in ARates : PhaseDecl /\ SetAnalogRate(r)
+  \/ \E n \in PNames : (PhaseDecl \/ NF > 0) /\ DeclPoint(n)
+  \/ \E n \in ANames : (PhaseDecl \/ NF > 0) /\ DeclAnalog(n)
+  \/ \E k \in FrameKinds, t \in Tags, i \in IdxRange : ShapeReady /\ AddFrame(k, t, i)
   \/ \E k \in ColKinds \ {"lesssub", "moresub"}, t \in Tags, n \in PNames, n2 \in PNames : AddPointCols(k, t, n, n2)
   \/ \E k \in ColKinds, t \in Tags, n \in ANames, n2 \in ANames : AddAnalogCols(k, t, n, n2)
   \/ \E i \in 1..Len(UserParams) : SetParam(UserParams[i].g, UserParams[i].p)
   \/ \E g \in LockNames, l \in {0, 1} : LockGroup(g, l)
-  \/ \E k \in CallerIds, kind \in FrameKinds, t \in Tags : CallerNew(k, kind, t)
+  \/ \E k \in CallerIds, kind \in FrameKinds, t \in Tags : ShapeReady /\ CallerNew(k, kind, t)
   \/ \E k \in CallerIds, t \in Tags : CallerMutate(k, t)
   \/ \E k \in CallerIds, i \in IdxRange : AddCallerFrame(k, i)
   \/ \E f \in 1..MaxFrames, t \in Tags : CallerIds # {} /\ EditStored(f, t)
